@@ -1,6 +1,6 @@
 # table consumed by tools_manifest.py
 ENGINES = [
-    {"name": "vv", "path": "vv/", "serves_properties": ["C13", "C19"], "kind_free_text": "runtime monitors: generators, independent flatbuffer reader/writer, compile drivers, sharded worker harness, evidence/findings"},
+    {"name": "vv", "path": "vv/", "serves_properties": ["C09", "C13", "C19"], "kind_free_text": "runtime monitors: generators, independent flatbuffer reader/writer, compile drivers, sharded worker harness, evidence/findings"},
 ]
 NOTES = ("Technique family: runtime monitoring and sanitizers. Every check runs the real code from /repo's working tree (codec rebuilt from the C "
          "sources on every run) under generated workloads with oracles observing executions; verdicts are violated / held-on-what-was-observed / "
@@ -22,3 +22,12 @@ check("C19", "exploration",
       "Oracles are my own ports of gemmlowp/TFLite kernels; leaky-relu and hard-swish oracles are set-valued (float32- or float64-derived multipliers, or the "
       "correctly rounded real function); quantisation parameters are sampled.",
       "reference-model runtime monitor on hooked functions and direct drive", "DESIGN.md 4/C19")
+
+check("C09", "exploration",
+      "Reference-model monitor with exact rational arithmetic: quantise_scale / reduced_quantise_scale over a float32 mantissa sweep, all exponents, boundaries and "
+      "random doubles (as python float, np.float64, np.float32): multiplier/shift ranges, 2^-31 (2^-14) relative error, value equality with a port of TFLite "
+      "QuantizeMultiplier, zeroing outside the hardware range; quantise_pooling_scale for every window 1..1024 (+sampled to 65536) against rounded division on all "
+      "reachable accumulators of small windows and ties beyond; add/sub/mul scale triples against the reference kernels' derivation.",
+      "Own ports of QuantizeMultiplier and of the add/sub/mul parameter derivations (MUL set-valued over float/double arithmetic); average-pool rounding oracle is "
+      "TFLite's (half away from zero), equal to round-half-up for non-negative accumulators.",
+      "reference-model runtime monitor (exact arithmetic) on direct drive of the real functions", "DESIGN.md 4/C09")
